@@ -31,6 +31,8 @@ def make_env(ncols=8):
         return sp.Symbol("f%d_%s" % (int(col.fields["i"]), str(int(rot)).replace("-", "m")))
     env.methods[("Meta", "query_fixed")] = query_fixed
     env.calls[("Expression", "Constant")] = lambda en, a: a[0]
+    env.calls[("u128_to_fe",)] = lambda en, a: a[0]
+    env.calls[("u64_to_fe",)] = lambda en, a: a[0]
 
     def ip(base):
         def f(en, a):
